@@ -842,6 +842,12 @@ Definition kids_wf (t : tree) : bool :=
    only on last segments; [good] = shape and a non-empty path *)
 Definition shape (t : tree) : bool := no_empty_kid t && alias_last t.
 Definition good (t : tree) : bool := negb (path_is_empty t) && shape t.
+(* no alias anywhere in the tree (no `as`) *)
+Fixpoint noalias (t : tree) : bool :=
+  match t with
+  | Node p k _ _ _ =>
+      alias_free p && match k with None => true | Some l => forallb noalias l end
+  end.
 (* the class of a top-level tree: visibility and attributes *)
 Definition cls (t : tree) : N * option N := (vnorm (vis t), attrs t).
 (* imports.rs:229: trees that normalize_use_trees_with_granularity pushes unchanged *)
